@@ -237,26 +237,26 @@ def _make_root(aliases):
 
 
 def check_shadowing(case):
-    root = _make_root(case["root_aliases"])
-    classes = [root]  # creation order; index 0 = root
+    # ---- the forest as plain data first (creation order; index 0 = root)
+    nodes = case["nodes"]
     parent_of = {0: None}
     eff = {0: set(case["root_aliases"])}
+    own = {0: True}
     path = [0]
     labels = set()
-    for i, node in enumerate(case["nodes"], start=1):
+    for i, node in enumerate(nodes, start=1):
         depth = node["parent"] % len(path)
         pidx = path[depth]
-        ns = {}
         if node["own"]:
-            ns["aliases"] = set(node["aliases"])
             eff[i] = set(node["aliases"])
         else:
             eff[i] = eff[pidx]
             labels.add("inherits-aliases")
-        classes.append(type("VerifNode%d" % i, (classes[pidx],), ns))
+        own[i] = bool(node["own"])
         parent_of[i] = pidx
         path = path[: depth + 1] + [i]
-    start = case["start"] % len(classes)
+    total = len(nodes) + 1
+    start = case["start"] % total
 
     def in_subtree(j):
         while j is not None:
@@ -266,24 +266,51 @@ def check_shadowing(case):
         return False
 
     # the queried alias: one that occurs in the searched subtree if possible (drawn index), else any pool word / unknown word
-    present = sorted(set().union(*[eff[j] for j in range(len(classes)) if in_subtree(j)]))
+    present = sorted(set().union(*[eff[j] for j in range(total) if in_subtree(j)]))
     if case["query_present"] and present:
         query = present[case["query"] % len(present)]
     else:
         query = (POOL + ["zz"])[case["query"] % (len(POOL) + 1)]
-    matching = [j for j in range(len(classes)) if in_subtree(j) and query in eff[j]]
     args, kwargs = case["args"], case["kwargs"]
-    desc = "from_alias(%r) on a forest of %d classes from class #%d" % (query, len(classes), start)
+
+    # ---- now register the classes one by one; the same lookup may also be made *between* registrations
+    # (drawn positions): a class registered later must win from then on, whatever was resolved before
+    root = _make_root(case["root_aliases"])
+    classes = [root]
+    probes = set(case.get("probes") or ())
+
+    def lookup(upto, final):
+        if start >= upto:
+            return None
+        matching = [j for j in range(upto) if in_subtree(j) and query in eff[j]]
+        desc = "from_alias(%r) from class #%d with %d of %d classes registered" % (query, start, upto, total)
+        if not matching:
+            expect_raises(desc, ValueError, classes[start].from_alias, query, *args, **kwargs)
+            return matching
+        want = max(matching)  # registered last
+        obj = call(desc, classes[start].from_alias, query, *args, **kwargs)
+        got = classes.index(type(obj)) if type(obj) in classes else None
+        require(got == want, "{}: alias shared by classes #{} (creation order): built #{}, the last registered is #{} (parents {})", desc,
+                matching, got, want, [parent_of[j] for j in range(upto)])
+        require(obj.args == tuple(args) and obj.kwargs == kwargs, "constructor arguments not passed through: got {!r} {!r}", obj.args, obj.kwargs)
+        return matching
+
+    early = 0
+    for i in range(1, total):
+        if i in probes:
+            if lookup(i, False) is not None:
+                early += 1
+        ns = {}
+        if own[i]:
+            ns["aliases"] = set(nodes[i - 1]["aliases"])
+        classes.append(type("VerifNode%d" % i, (classes[parent_of[i]],), ns))
+    matching = lookup(total, True)
+    if early:
+        labels.add("lookups-between-registrations")
     if not matching:
-        expect_raises(desc, ValueError, classes[start].from_alias, query, *args, **kwargs)
         labels.add("unknown")
         return {"nontrivial": False, "labels": sorted(labels)}
-    want = max(matching)  # registered last
-    obj = call(desc, classes[start].from_alias, query, *args, **kwargs)
-    got = classes.index(type(obj)) if type(obj) in classes else None
-    require(got == want, "alias {!r} shared by classes #{} (creation order): built #{}, the last registered is #{} (parents {})", query,
-            matching, got, want, [parent_of[j] for j in range(len(classes))])
-    require(obj.args == tuple(args) and obj.kwargs == kwargs, "constructor arguments not passed through: got {!r} {!r}", obj.args, obj.kwargs)
+    want = max(matching)
     if len(matching) > 1:
         for j in matching:
             if j != want:
@@ -321,6 +348,7 @@ def shadowing_cases():
             "start": st.one_of(st.just(0), st.just(0), st.integers(1, 10)),
             "args": st.lists(st.integers(0, 9), max_size=2),
             "kwargs": st.dictionaries(st.sampled_from(["x", "y", "name"]), st.integers(0, 9), max_size=2),
+            "probes": st.one_of(st.just([]), st.lists(st.integers(1, 10), max_size=4, unique=True)),
         }
     )
 
